@@ -573,3 +573,37 @@ RULE_GRAMMAR = ("TLC draws pseudo-random sentences (<= 7 arguments, every prefix
                 "macro tokens and the builder twin; the real macro compiles them; at run time macro == twin bit for bit (metadata and values), macro == spec within "
                 "tolerance, merged lists == MergedTimeline::of(twins) and == ordered overlay; ill-formed variants (one per class, embedded in generated sentences) must be "
                 "rejected by rustc")
+
+
+@check("C16")
+def c16(ctx):
+    run = run_tlc(ctx, "MC_AnimGrammar", "MC_AnimGrammar.cfg", workers=4, subst={"NBlocks": 120 if ctx.quick() else 1500}, capture="gen-blocks.txt", timeout=3000)
+    n = count_replay(run["out"])
+    if n == 0:
+        raise ToolError("block generator produced no blocks")
+    gdir = ctx.path("genb")
+    p = subprocess.run(["python3", os.path.join(ROOT, "bin", "gen_macros.py"), "blocks", run["out"], gdir], capture_output=True, text=True)
+    if p.returncode != 0:
+        raise ToolError("gen_macros failed: " + p.stderr[-1000:])
+    b = build_gen(ctx, gdir, binary="genb")
+    if b.returncode != 0:
+        if "blocks.rs" not in b.stderr:
+            raise ToolError("the repository (or the harness) does not compile: " + b.stderr[-1500:])
+        ctx.violation("a well-formed animator! block does not compile with the real macro (or the twin does not)", {"rustc": b.stderr[-1500:]})
+        return "model_checking", RULE_BLOCKS
+    rep = run_harness([run["out"]], which=GEN, binary="genb")
+    ctx.traces += n
+    ctx.evaluations += rep["evals"]
+    blocks = json.load(open(os.path.join(gdir, "blocks.json")))
+    ctx.sample({"block": blocks[0]["tokens"]})
+    ctx.sample({"block": blocks[len(blocks) // 2]["tokens"]})
+    judge_replay(ctx, rep, lambda m: True, "animator! block vs StateAnimatorBuilder twin vs documented reading")
+    ctx.assumptions += ["blocks are restricted to C04's domain (distinct keyframe positions per property)", "durations on the 1/8 s grid"]
+    return "model_checking", RULE_BLOCKS
+
+
+RULE_BLOCKS = ("TLC draws pseudo-random animator! blocks (default clause absent / state only / inline subset / expression; 1-3 arms with `A | B`, single or "
+               "bracketed merged timelines, explicit and `default` keyframe bodies, all argument forms), computes the documented Reading as an Animator.tla "
+               "configuration (checking ReadingFacts, Consistent, NoJump, PauseRules on it) and drives it with a pseudo-random history of 30 operations; the real "
+               "animator! compiles every block; the macro-built animator must equal the StateAnimatorBuilder twin bit for bit after every operation (values, state, "
+               "is_ended, internal clock and pause record) and the specification's predicted observations")
